@@ -188,6 +188,7 @@ func checkCode128(t TB, c C128Case) *ref.Code128Result {
 		failf(t, "C05", "code128-roundtrip", c, "%v", merr)
 	}
 	res, derr := ref.DecodeCode128(m, c.Checksum)
+	colourVariant(t, "C05", "code128-roundtrip", c, EncSpec{Fam: map[bool]string{true: "code128", false: "code128nc"}[c.Checksum], Content: c.Content}, [][]bool{m})
 	if derr != nil {
 		failf(t, "C05", "code128-roundtrip", c, "reference decoder: %v", derr)
 	}
